@@ -42,6 +42,10 @@ def run(tier, seed):
     nin = sum(len(x["feats"]) for t in traces for x in [t[0]["vec"]] + t[0]["mods"])
     nout = sum(1 for t in traces for f in t[0]["out"]["feats"] if not (f["type"] == "source" and f["srclabel"]))
     run.extra.update({"input_features": nin, "inherited_features_in_products": nout})
+    # generic history fuzzer: live objects used again and again (wrap, query, rotate by 0, edit in place, assemble)
+    from .. import scenario
+    sc = scenario.run(rng, 20 if q else 200)
+    run.validate("scenario-assemblies", "Trace_Assembly", sc["assembly"], None, sigfn=ac.asm_sig, describe=ac.asm_describe)
     return run.finish("TLC: features follow their nucleotides under rotation (record model) and the fragment partition (assembly small "
                       "world); I->S: assemblies over all geometries with random feature tables (simple, two-part, origin-spanning, "
                       "either strand, nested/abutting, touching the fragment boundaries) on inputs at random rotations; TLC derives the "
